@@ -533,7 +533,7 @@ def check_invalid_indexes(chk, lab, m, M, spec):
     chk.outcome("invalid_call", ("modulate(index>=M)", "raised:ValueError required",
                                  "object_changed" if obj_digest(m) != dig else "object_unchanged"))
     ok = coherent_after_invalid_call(chk, lab, m, spec, "modulate_invalid_index")
-    if hasattr(m, "setPhaseOffset"):
+    if ok and hasattr(m, "setPhaseOffset"):
         # the property says nothing about a phase offset that is not a number: free as a call
         for bad in ("x", None):
             chk.count("eval_invalid_index_calls")
